@@ -188,9 +188,13 @@ def c16_histories(ctx):
         else:
             live = {"a": C.obj_vec(fl, sig, rows[0]), "b": C.obj_vec(fl, sig, rows[1]), "c": C.obj_vec(fl, sig, rows[2])}
         trace = []
-        inplace = [("numpy.add(a, b, out=c)", lambda L: numpy.add(L["a"], L["b"], out=L["c"])), ("numpy.subtract(b, a, out=a)", lambda L: numpy.subtract(L["b"], L["a"], out=L["a"])),
-                   ("numpy.multiply(a, 2.0, out=c)", lambda L: numpy.multiply(L["a"], 2.0, out=L["c"])), ("numpy.true_divide(b, 4.0, out=b)", lambda L: numpy.true_divide(L["b"], 4.0, out=L["b"])),
-                   ("a += b", lambda L: L["a"].__iadd__(L["b"])), ("c -= a", lambda L: L["c"].__isub__(L["a"])), ("b *= 1.5", lambda L: L["b"].__imul__(1.5)), ("c /= 2.0", lambda L: L["c"].__itruediv__(2.0))]
+        inplace = [("numpy.add(a, b, out=c)", lambda L: numpy.add(L["a"], L["b"], out=L["c"]), "c"), ("numpy.subtract(b, a, out=a)", lambda L: numpy.subtract(L["b"], L["a"], out=L["a"]), "a"),
+                   ("numpy.multiply(a, 2.0, out=c)", lambda L: numpy.multiply(L["a"], 2.0, out=L["c"]), "c"), ("numpy.true_divide(b, 4.0, out=b)", lambda L: numpy.true_divide(L["b"], 4.0, out=L["b"]), "b"),
+                   ("numpy.true_divide(a, 2.0, out=c)", lambda L: numpy.true_divide(L["a"], 2.0, out=L["c"]), "c"), ("numpy.divide(b, 4.0, out=a)", lambda L: numpy.divide(L["b"], 4.0, out=L["a"]), "a"),
+                   ("numpy.multiply(3.0, b, out=a)", lambda L: numpy.multiply(3.0, L["b"], out=L["a"]), "a"), ("numpy.negative(a, out=c)", lambda L: numpy.negative(L["a"], out=L["c"]), "c"),
+                   ("numpy.subtract(a, b, out=c)", lambda L: numpy.subtract(L["a"], L["b"], out=L["c"]), "c"),
+                   ("a += b", lambda L: L["a"].__iadd__(L["b"]), "a"), ("c -= a", lambda L: L["c"].__isub__(L["a"]), "c"), ("b *= 1.5", lambda L: L["b"].__imul__(1.5), "b"),
+                   ("c /= 2.0", lambda L: L["c"].__itruediv__(2.0), "c")]
         ordinary = [("rotateZ", lambda v, w: v.rotateZ(0.5)), ("scale", lambda v, w: v.scale(2.0)), ("v + w", lambda v, w: v + w), ("v - w", lambda v, w: v - w), ("unit", lambda v, w: v.unit()),
                     ("v * 3", lambda v, w: v * 3.0), ("-v", lambda v, w: -v), ("abs", lambda v, w: abs(v)), ("dot", lambda v, w: v.dot(w)), ("v == w", lambda v, w: v == w),
                     ("to_own", lambda v, w: getattr(v, "to_" + "".join(C.signames(sig)))()), ("to_xy", lambda v, w: v.to_xy()), ("isclose", lambda v, w: v.isclose(w)),
@@ -204,12 +208,30 @@ def c16_histories(ctx):
         for step in range(r.randint(4, 10)):
             n_steps += 1
             if r.random() < 0.4:
-                name, f_ = r.choice(inplace)
+                name, f_, target = r.choice(inplace)
                 trace.append(name)
+                before = {k: snapshot(x) for k, x in live.items() if k != target}
+                want = None
+                try:
+                    if kind == "np" and "out=" in name:      # what the target must hold afterwards: the functional result
+                        fn = getattr(numpy, name.split("(")[0].split(".")[1])
+                        argn = name[name.index("(") + 1:name.index(", out=")].split(", ")
+                        want = fn(*[live[x] if x in live else float(x) for x in argn])
+                except Exception:  # noqa: BLE001
+                    want = None
                 try:
                     f_(live)
                 except Exception:  # noqa: BLE001  (a rejected in-place step: the harness of C15 / C19 checks what it leaves behind)
-                    pass
+                    want = None
+                changed = [k for k, x in live.items() if k != target and snapshot(x) != before[k]]
+                if changed:
+                    problems.append((f"operand-modified:history:{kind}:{name.split('(')[0]}", f"{kind} {fl}:{sig}: after {trace[:-1]} the step `{name}` changed {changed}, which is not its target `{target}`"))
+                    break
+                if want is not None and isinstance(want, numpy.ndarray) and want.dtype.names == live[target].dtype.names:
+                    got_ = live[target].view(numpy.ndarray)
+                    if not all(numpy.allclose(got_[f], want.view(numpy.ndarray)[f], rtol=1e-12, atol=0, equal_nan=True) for f in want.dtype.names):
+                        problems.append((f"out-not-filled:history:{name.split('(')[0]}", f"{kind} {fl}:{sig}: after {trace[:-1]} the step `{name}` did not write the result into `{target}`: {got_.tolist()[:2]} vs {want.view(numpy.ndarray).tolist()[:2]}"))
+                        break
                 continue
             name, f_ = r.choice(ordinary)
             vn, wn = r.sample(sorted(live), 2)
